@@ -42,8 +42,7 @@ Definition fold_ok (e : expr) (f : option folded) : Prop :=
   | Some FFalse => forall r t, sem3 e r = Some t -> t = FF
   | Some (FSimp e') =>
       (wf_expr e = true -> wf_expr e' = true) /\ try_fold e' = None /\
-      (forall r t, sem3 e r = Some t -> exists t', sem3 e' r = Some t' /\ tv_is_true t' = tv_is_true t) /\
-      (forall r, cls13 e r = 0 -> cls13 e' r = 0)
+      (forall r t, sem3 e r = Some t -> exists t', sem3 e' r = Some t' /\ tv_is_true t' = tv_is_true t)
   end.
 
 Lemma sem3_and_inv : forall a b r t, sem3 (EAnd a b) r = Some t ->
@@ -99,20 +98,18 @@ Proof.
       now rewrite (IHa r ta Sa), (IHb r tb Sb).
     + intros r t Hs. apply sem3_and_inv in Hs as (ta & tb & Sa & Sb & ->).
       rewrite (IHb r tb Sb). now destruct ta.
-    + split; [intros W; cbn in W; now apply andb_prop in W as [_ W]|]. split; [exact Fb|]. split.
-      * intros r t Hs. apply sem3_and_inv in Hs as (ta & tb & Sa & Sb & ->).
+    + split; [intros W; cbn in W; now apply andb_prop in W as [_ W]|]. split; [exact Fb|].
+      intros r t Hs. apply sem3_and_inv in Hs as (ta & tb & Sa & Sb & ->).
         exists tb. split; [exact Sb|]. now rewrite (IHa r ta Sa), tv_and_TT_l.
-      * intros r Hp. cbn [cls13] in Hp. now apply first_nz_0 in Hp as [_ Hp].
     + intros r t Hs. apply sem3_and_inv in Hs as (ta & tb & Sa & Sb & ->). now rewrite (IHa r ta Sa).
     + intros r t Hs. apply sem3_and_inv in Hs as (ta & tb & Sa & Sb & ->). now rewrite (IHa r ta Sa).
     + intros r t Hs. apply sem3_and_inv in Hs as (ta & tb & Sa & Sb & ->). now rewrite (IHa r ta Sa).
     + intros r t Hs. apply sem3_and_inv in Hs as (ta & tb & Sa & Sb & ->). now rewrite (IHa r ta Sa).
     + intros r t Hs. apply sem3_and_inv in Hs as (ta & tb & Sa & Sb & ->).
       rewrite (IHb r tb Sb). now destruct ta.
-    + split; [intros W; cbn in W; now apply andb_prop in W as [W _]|]. split; [exact Fa|]. split.
-      * intros r t Hs. apply sem3_and_inv in Hs as (ta & tb & Sa & Sb & ->).
+    + split; [intros W; cbn in W; now apply andb_prop in W as [W _]|]. split; [exact Fa|].
+      intros r t Hs. apply sem3_and_inv in Hs as (ta & tb & Sa & Sb & ->).
         exists ta. split; [exact Sa|]. rewrite (IHb r tb Sb). now destruct ta.
-      * intros r Hp. cbn [cls13] in Hp. now apply first_nz_0 in Hp as [Hp _].
     + intros r t Hs. apply sem3_and_inv in Hs as (ta & tb & Sa & Sb & ->).
       rewrite (IHb r tb Sb). now destruct ta.
   - (* OR *)
@@ -126,18 +123,16 @@ Proof.
       rewrite (IHb r tb Sb). now destruct ta.
     + intros r t Hs. apply sem3_or_inv in Hs as (ta & tb & Sa & Sb & ->).
       now rewrite (IHa r ta Sa), (IHb r tb Sb).
-    + split; [intros W; cbn in W; now apply andb_prop in W as [_ W]|]. split; [exact Fb|]. split.
-      * intros r t Hs. apply sem3_or_inv in Hs as (ta & tb & Sa & Sb & ->).
+    + split; [intros W; cbn in W; now apply andb_prop in W as [_ W]|]. split; [exact Fb|].
+      intros r t Hs. apply sem3_or_inv in Hs as (ta & tb & Sa & Sb & ->).
         exists tb. split; [exact Sb|]. now rewrite (IHa r ta Sa), tv_or_FF_l.
-      * intros r Hp. cbn [cls13] in Hp. now apply first_nz_0 in Hp as [_ Hp].
     + intros r t Hs. apply sem3_or_inv in Hs as (ta & tb & Sa & Sb & ->).
       rewrite (IHb r tb Sb). now destruct ta.
     + intros r t Hs. apply sem3_or_inv in Hs as (ta & tb & Sa & Sb & ->).
       rewrite (IHb r tb Sb). now destruct ta.
-    + split; [intros W; cbn in W; now apply andb_prop in W as [W _]|]. split; [exact Fa|]. split.
-      * intros r t Hs. apply sem3_or_inv in Hs as (ta & tb & Sa & Sb & ->).
+    + split; [intros W; cbn in W; now apply andb_prop in W as [W _]|]. split; [exact Fa|].
+      intros r t Hs. apply sem3_or_inv in Hs as (ta & tb & Sa & Sb & ->).
         exists ta. split; [exact Sa|]. rewrite (IHb r tb Sb). now destruct ta.
-      * intros r Hp. cbn [cls13] in Hp. now apply first_nz_0 in Hp as [Hp _].
   - (* NOT *)
     cbn [try_fold]. destruct (try_fold a) as [[| |a']|] eqn:Fa; cbn [fold_ok] in *; try exact I.
     + intros r t Hs. apply sem3_not_inv in Hs as (ta & Sa & ->). now rewrite (IHa r ta Sa).
@@ -145,26 +140,16 @@ Proof.
 Qed.
 
 (* ------------------------------------------------------------------ rows *)
-Lemma first_row_0 : forall f t, first_row f t = 0 <-> Forall (fun r => f r = 0) t.
-Proof.
-  intros f. induction t as [|r t IH]; cbn [first_row].
-  - split; [constructor|reflexivity].
-  - rewrite first_nz_0, IH. split.
-    + intros [A B]. now constructor.
-    + intros H. inversion H. auto.
-Qed.
-
 Lemma filter_rows_correct : forall e t,
-  wf_expr e = true -> plain_table t = true ->
-  Forall (fun r => cls13 e r = 0) t -> defined_on e t = true ->
+  wf_expr e = true -> plain_table t = true -> defined_on e t = true ->
   filter_rows e t = Ok (spec_rows e t).
 Proof.
-  intros e t Hw. induction t as [|r t IH]; intros Hp Hc Hd; [reflexivity|].
-  inversion Hc as [|? ? Hr Ht]; subst. unfold defined_on in Hd. cbn [forallb plain_table] in Hd, Hp.
+  intros e t Hw. induction t as [|r t IH]; intros Hp Hd; [reflexivity|].
+  unfold defined_on in Hd. cbn [forallb plain_table] in Hd, Hp.
   apply andb_prop in Hd as [Hd1 Hd2]. apply andb_prop in Hp as [Hp1 Hp2].
   destruct (sem3 e r) as [tv0|] eqn:Es; [|discriminate].
-  cbn [filter_rows spec_rows map]. rewrite (eval_expr_correct e r tv0 Hw Hp1 Hr Es). cbn [bindr].
-  fold (spec_rows e t). rewrite (IH Hp2 Ht Hd2). cbn [bindr]. unfold passes. rewrite Es.
+  cbn [filter_rows spec_rows map]. rewrite (eval_expr_correct e r tv0 Hw Hp1 Es). cbn [bindr].
+  fold (spec_rows e t). rewrite (IH Hp2 Hd2). cbn [bindr]. unfold passes. rewrite Es.
   now destruct tv0.
 Qed.
 
@@ -196,11 +181,10 @@ Qed.
 Lemma filter_false : forall t, filter_rows (ELit (VBool false)) t = Ok (map (fun _ => 0) t).
 Proof. induction t as [|r t IH]; [reflexivity|]. cbn [filter_rows]. rewrite IH. reflexivity. Qed.
 
-Lemma cls_query_0 : forall e t, cls_query e t = 0 ->
-  wf_expr e = true /\ plain_table t = true /\ Forall (fun r => cls13 e r = 0) t.
+Lemma cls_query_0 : forall e t, cls_query e t = 0 -> wf_expr e = true /\ plain_table t = true.
 Proof.
   intros e t H. unfold cls_query in H. destruct (wf_expr e && plain_table t) eqn:E; [|discriminate].
-  apply andb_prop in E as [E1 E2]. apply first_row_0 in H. auto.
+  now apply andb_prop in E.
 Qed.
 
 (* SELECT * FROM t WHERE e: parser (either printing style), optimizer, executor *)
@@ -208,17 +192,16 @@ Theorem where_query_correct : forall sty e t,
   cls_where sty e t = 0 -> defined_on e t = true ->
   model_where (parsed sty e) t = MOut (QRows (spec_rows e t)).
 Proof.
-  intros sty e t Hc Hd. unfold cls_where in Hc. apply cls_query_0 in Hc as (Hw & Hp & Hrows).
+  intros sty e t Hc Hd. unfold cls_where in Hc. apply cls_query_0 in Hc as (Hw & Hp).
   unfold parsed. pose proof (try_fold_sound e) as Hf.
   unfold model_where. cbn [fold_iter] in *.
   destruct (try_fold e) as [[| |e']|] eqn:Ef; cbn [fold_ok] in Hf.
   - now rewrite (rows_const e t TT Hf Hd).
   - rewrite filter_false. now rewrite (rows_const e t FF Hf Hd).
-  - destruct Hf as (Hw' & Hn' & Hsem & Hcls). cbn [fold_iter]. rewrite Hn'.
+  - destruct Hf as (Hw' & Hn' & Hsem). cbn [fold_iter]. rewrite Hn'.
     destruct (spec_rows_ext e e' t Hsem Hd) as (R1 & R2).
-    rewrite filter_rows_correct; [now rewrite R1|now apply Hw'|exact Hp| |exact R2].
-    eapply Forall_impl; [|exact Hrows]. intros r. apply Hcls.
-  - now rewrite (filter_rows_correct e t Hw Hp Hrows Hd).
+    rewrite filter_rows_correct; [now rewrite R1|now apply Hw'|exact Hp|exact R2].
+  - now rewrite (filter_rows_correct e t Hw Hp Hd).
 Qed.
 
 (* SELECT id, (e) FROM t *)
@@ -226,15 +209,15 @@ Theorem select_query_correct : forall sty e t,
   cls_select sty e t = 0 -> defined_on e t = true ->
   model_select (parsed sty e) t = MOut (QVals (spec_vals e t)).
 Proof.
-  intros sty e t Hc Hd. unfold cls_select in Hc. apply cls_query_0 in Hc as (Hw & Hp & Hrows).
+  intros sty e t Hc Hd. unfold cls_select in Hc. apply cls_query_0 in Hc as (Hw & Hp).
   unfold parsed, model_select.
   assert (G : select_rows e t = Ok (spec_vals e t)).
   { induction t as [|r t IH]; [reflexivity|].
-    inversion Hrows as [|? ? Hr Ht]; subst. unfold defined_on in Hd. cbn [forallb plain_table] in Hd, Hp.
+    unfold defined_on in Hd. cbn [forallb plain_table] in Hd, Hp.
     apply andb_prop in Hd as [Hd1 Hd2]. apply andb_prop in Hp as [Hp1 Hp2].
     destruct (sem3 e r) as [t0|] eqn:Es; [|discriminate].
-    destruct (eval_value_correct e r t0 Hw Hp1 Hr Es) as (o & Vo & Co).
+    destruct (eval_value_correct e r t0 Hw Hp1 Es) as (o & Vo & Co).
     cbn [select_rows spec_vals map]. rewrite Vo. cbn [bindr]. fold (spec_vals e t).
-    rewrite (IH Hp2 Ht Hd2). cbn [bindr]. now rewrite Es, Co. }
+    rewrite (IH Hp2 Hd2). cbn [bindr]. now rewrite Es, Co. }
   now rewrite G.
 Qed.
